@@ -40,3 +40,115 @@ func forall(lo, hi int, f func(int) bool) bool {
 //@   ensures s != nil ==> seqlen(result) == len(s.l) && forall(0, len(s.l), func(j int) bool { return seqat(result, j) == s.l[j] })
 //@   loop 0:
 //@     invariant len(out_) == idx_ && forall(0, idx_, func(j int) bool { return out_[j] == s.l[j] })
+
+// ---- SortedCache over github.com/google/btree (assumed ordered-set contract).
+// Abstract value of the tree: ghost field `set` (the stored byte strings, by
+// content) and `bytes` (the sum of their lengths).
+
+//@ type ext:btree.BTreeG
+//@   ghostfield set map[string]bool
+//@   ghostfield bytes int
+
+//@ func ext:btree.BTreeG.ReplaceOrInsert
+//@   trusted
+//@   modifies self.set, self.bytes
+//@   ensures self.bytes >= 0
+//@   ensures result1 == has(old(self.set), string(arg0))
+//@   ensures result1 ==> string(result0) == string(arg0)
+//@   ensures forall(func(k string) bool { return has(self.set, k) == (has(old(self.set), k) || k == string(arg0)) })
+//@   ensures len(self.set) == old(len(self.set)) + ite(result1, 0, 1)
+//@   ensures self.bytes == old(self.bytes) + len(arg0) - ite(result1, len(result0), 0)
+
+//@ func ext:btree.BTreeG.DeleteMin
+//@   trusted
+//@   modifies self.set, self.bytes
+//@   ensures self.bytes >= 0
+//@   ensures result1 == (old(len(self.set)) > 0)
+//@   ensures result1 ==> has(old(self.set), string(result0)) && forall(func(k string) bool { return has(old(self.set), k) ==> string(result0) <= k })
+//@   ensures result1 ==> forall(func(k string) bool { return has(self.set, k) == (has(old(self.set), k) && k != string(result0)) })
+//@   ensures result1 ==> len(self.set) == old(len(self.set)) - 1 && self.bytes == old(self.bytes) - len(result0)
+//@   ensures !result1 ==> same(self.set, old(self.set)) && self.bytes == old(self.bytes)
+
+//@ func ext:btree.BTreeG.DeleteMax
+//@   trusted
+//@   modifies self.set, self.bytes
+//@   ensures self.bytes >= 0
+//@   ensures result1 == (old(len(self.set)) > 0)
+//@   ensures result1 ==> has(old(self.set), string(result0)) && forall(func(k string) bool { return has(old(self.set), k) ==> k <= string(result0) })
+//@   ensures result1 ==> forall(func(k string) bool { return has(self.set, k) == (has(old(self.set), k) && k != string(result0)) })
+//@   ensures result1 ==> len(self.set) == old(len(self.set)) - 1 && self.bytes == old(self.bytes) - len(result0)
+//@   ensures !result1 ==> same(self.set, old(self.set)) && self.bytes == old(self.bytes)
+
+//@ func ext:btree.BTreeG.Min
+//@   trusted
+//@   modifies nothing
+//@   ensures result1 == (len(self.set) > 0)
+//@   ensures result1 ==> has(self.set, string(result0)) && forall(func(k string) bool { return has(self.set, k) ==> string(result0) <= k })
+
+//@ func ext:btree.BTreeG.Delete
+//@   trusted
+//@   modifies self.set, self.bytes
+//@   ensures self.bytes >= 0
+//@   ensures result1 == has(old(self.set), string(arg0))
+//@   ensures result1 ==> string(result0) == string(arg0)
+//@   ensures forall(func(k string) bool { return has(self.set, k) == (has(old(self.set), k) && k != string(arg0)) })
+//@   ensures len(self.set) == old(len(self.set)) - ite(result1, 1, 0)
+//@   ensures self.bytes == old(self.bytes) - ite(result1, len(result0), 0)
+
+//@ func ext:btree.BTreeG.Len
+//@   trusted
+//@   modifies nothing
+//@   ensures result == len(self.set)
+
+// SortedCache: a set of byte strings with min/max extraction; byteSize must
+// always equal the total length of the stored strings (size accounting).
+//@ func SortedCache.Push
+//@   property C19 C10
+//@   requires s.tree != nil && s.tree.bytes >= 0 && s.byteSize == uint64(s.tree.bytes)
+//@   modifies s.byteSize, s.tree.set, s.tree.bytes
+//@   ensures s.byteSize == uint64(s.tree.bytes)
+//@   ensures forall(func(k string) bool { return has(s.tree.set, k) == (has(old(s.tree.set), k) || k == string(addValue)) })
+
+//@ func SortedCache.Pop
+//@   property C19 C10
+//@   requires s.tree != nil && s.tree.bytes >= 0 && s.byteSize == uint64(s.tree.bytes)
+//@   modifies s.byteSize, s.tree.set, s.tree.bytes
+//@   ensures s.byteSize == uint64(s.tree.bytes)
+//@   ensures result1 == (old(len(s.tree.set)) > 0)
+//@   ensures result1 ==> has(old(s.tree.set), string(result0)) && forall(func(k string) bool { return has(old(s.tree.set), k) ==> string(result0) <= k })
+//@   ensures result1 ==> forall(func(k string) bool { return has(s.tree.set, k) == (has(old(s.tree.set), k) && k != string(result0)) })
+//@   ensures !result1 ==> same(s.tree.set, old(s.tree.set))
+
+//@ func SortedCache.PopLast
+//@   property C19 C10
+//@   requires s.tree != nil && s.tree.bytes >= 0 && s.byteSize == uint64(s.tree.bytes)
+//@   modifies s.byteSize, s.tree.set, s.tree.bytes
+//@   ensures s.byteSize == uint64(s.tree.bytes)
+//@   ensures result1 == (old(len(s.tree.set)) > 0)
+//@   ensures result1 ==> has(old(s.tree.set), string(result0)) && forall(func(k string) bool { return has(old(s.tree.set), k) ==> k <= string(result0) })
+//@   ensures result1 ==> forall(func(k string) bool { return has(s.tree.set, k) == (has(old(s.tree.set), k) && k != string(result0)) })
+
+//@ func SortedCache.Peek
+//@   property C19 C10
+//@   requires s.tree != nil
+//@   modifies nothing
+//@   ensures result1 == (len(s.tree.set) > 0)
+//@   ensures result1 ==> has(s.tree.set, string(result0)) && forall(func(k string) bool { return has(s.tree.set, k) ==> string(result0) <= k })
+
+//@ func SortedCache.Delete
+//@   property C19 C10
+//@   requires s.tree != nil && s.tree.bytes >= 0 && s.byteSize == uint64(s.tree.bytes)
+//@   modifies s.byteSize, s.tree.set, s.tree.bytes
+//@   ensures s.byteSize == uint64(s.tree.bytes)
+//@   ensures forall(func(k string) bool { return has(s.tree.set, k) == (has(old(s.tree.set), k) && k != string(key)) })
+
+//@ func SortedCache.IsEmpty
+//@   property C19 C10
+//@   requires s.tree != nil
+//@   modifies nothing
+//@   ensures result == (len(s.tree.set) == 0)
+
+//@ func SortedCache.IsFull
+//@   property C19 C10
+//@   modifies nothing
+//@   ensures result == (s.byteSize >= s.maxSizeBytes)
